@@ -2,7 +2,8 @@ ID = "C14"
 
 PROP = {
     "level": "exploration",
-    "rule": ("1-3 flow filters (unit 1) or 1-2 policy endpoints (unit 2) whose URL is host (with dots, port, IPv4) + 0-4 segments drawn from "
+    "rule": ("[unit TestRegisteredByRunningGateway: 1-3 generated flow files, several sharing one URL pattern with different method lists, are loaded by a real HandlingDataManager; an in-process RoundTripper records the expressions it PUTs to the proxy; engine verdict = the flows that ran for the request through routing.Handler] "
+             "1-3 flow filters (unit 1) or 1-2 policy endpoints (unit 2) whose URL is host (with dots, port, IPv4) + 0-4 segments drawn from "
              "plain / dotted / regex-metacharacter (+ ( ) [ ] ? | $ ^ \\ { } *) / percent-escaped / {param} (word names, and names with "
              ". ~ blank or empty) segments, optional trailing /* or trailing slash, rarely the catch-all '*' / '.*'; method list empty or "
              "1-3 of GET POST PUT DELETE PATCH HEAD OPTIONS (policies: exactly one); 6 requests per configuration derived from a "
@@ -29,6 +30,7 @@ PROP = {
         {"pkg": "c14", "test": "TestWitnessMethodlessFilter", "kind": "plain"},
         {"pkg": "c14", "test": "TestWitnessParameterName", "kind": "plain"},
         {"pkg": "c14", "test": "TestWitnessTrailingSlash", "kind": "plain"},
+        {"pkg": "c14", "test": "TestRegisteredByRunningGateway", "quick": 250, "thorough": 3000, "shards": 1},
     ],
     "technique": ("property-based differential testing (rapid): cross-validation of two independent translations of one configured URL - "
                   "the engine's tries and the regular expression registered with the proxy - plus a literal-character metamorphic probe; "
